@@ -7,8 +7,13 @@ use swiftness_air::domains::StarkDomains;
 pub fn run(args: &[String]) {
     let max: u64 = args[0].parse().unwrap();
     let mut out = Out::file(&args[1]);
-    for t in 0..=max {
-        for c in 0..=(max - t) {
+    // every pair twice, in two orders: row by row, then along the anti-diagonals (consecutive calls with the same evaluation
+    // domain and a different split): the result of a call must not depend on the calls before it
+    let mut order: Vec<(u64, u64)> = Vec::new();
+    for t in 0..=max { for c in 0..=(max - t) { order.push((t, c)); } }
+    for s in 0..=max { for t in 0..=s { order.push((t, s - t)); } }
+    {
+        for (t, c) in order {
             match guarded(|| StarkDomains::new(Felt::from(t), Felt::from(c))) {
                 Ok(d) => out.line(&json!({"ev":"domains","t":t,"c":c,
                     "log_eval":hex(&d.log_eval_domain_size),"eval_size":hex(&d.eval_domain_size),"eval_gen":hex(&d.eval_generator),
